@@ -46,6 +46,21 @@ func Lifecycle(rng *wh.Rng, thorough bool) []Scenario {
 		}
 		p = append(p, "wrr", "close:1", "wclose")
 		out = append(out, Scenario{Handlers: hs, Prog: p, Seed: rng.Next(), Yield: 300, Conf: n <= 2, Tag: fmt.Sprintf("life/stop-all/%d", n)})
+		if n <= 3 {
+			// the same with publishers whose Close reports an error (every handler, or only the first): Stopped() still closes,
+			// the router still closes itself when the last handler ended
+			for _, all := range []bool{true, false} {
+				hs2 := append([]HandlerSpec{}, hs...)
+				for h := range hs2 {
+					hs2[h].PubCloseErr = all || h == 0
+				}
+				tag := "first"
+				if all {
+					tag = "all"
+				}
+				out = append(out, Scenario{Handlers: hs2, Prog: p, Seed: rng.Next(), Conf: n <= 2, WaitMs: 8000, Tag: fmt.Sprintf("life/stop-all/pub-close-err-%s/%d", tag, n)})
+			}
+		}
 
 		// Run context cancelled: the router closes itself, Run returns nil
 		hs, p = addAll(n, plain)
